@@ -217,7 +217,13 @@ fn fresh_process_check(spec: &RunSpec, res: &mut RunResult) {
     let Ok(exe) = std::env::current_exe() else { return };
     let json = serde_json::to_string(spec).unwrap();
     for slot in 0..spec.slots.len() {
-        let Ok(mut child) = Command::new(&exe).arg("ref").arg(slot.to_string()).stdin(Stdio::piped()).stdout(Stdio::piped()).stderr(Stdio::null()).spawn() else { return };
+        let mut cmd = Command::new(&exe);
+        cmd.arg("ref").arg(slot.to_string());
+        if stub::NO_NEST.load(std::sync::atomic::Ordering::Relaxed) {
+            // the child must execute the operations the way this process does
+            cmd.arg("--no-nest");
+        }
+        let Ok(mut child) = cmd.stdin(Stdio::piped()).stdout(Stdio::piped()).stderr(Stdio::null()).spawn() else { return };
         if let Some(mut si) = child.stdin.take() {
             let _ = si.write_all(json.as_bytes());
         }
@@ -543,7 +549,8 @@ pub fn check_c18(op: &Op, cfg: &SlotCfg, out: &Outcome, thread: usize, opi: usiz
 fn check_nested(spec: &RunSpec, op: &Op, out: &Outcome, prop: Prop, thread: usize, opi: usize, step: usize, cache: &mut BTreeMap<String, Outcome>, v: &mut Vec<Violation>) {
     let cfg = &spec.slots[op.slot];
     for n in &out.stub.nested {
-        let pseudo = Op { slot: op.slot, call: n.call.clone(), plan: vec![], yield_mask: 0, check_acc: false, elem_fault: 0 };
+        // the nested call ran with the accessor checks of the outer operation: so must its solitary twin
+        let pseudo = Op { slot: op.slot, call: n.call.clone(), plan: vec![], yield_mask: 0, check_acc: op.check_acc, elem_fault: 0 };
         if prop == Prop::C18 {
             let mut v18 = vec![];
             check_c18(&pseudo, cfg, &n.out, thread, opi, step, &mut v18);
